@@ -526,6 +526,30 @@ func (c *FnCtx) applyCallee(st *State, site ast.Node, key string, sig *types.Sig
 		for i := 0; i < fsig.Params().Len() && i < len(args); i++ {
 			env[fsig.Params().At(i).Name()] = args[i].withGo(fsig.Params().At(i).Type())
 		}
+		// a renamed receiver or parameter: the contract still uses the name recorded in contracts/loops.lock; bind it to
+		// the variable at the same position of the signature
+		if rec := c.eng.localLock[key]; len(rec) > 0 {
+			sigVars := localsInOrder(fi)
+			for name, ord := range rec {
+				if _, have := env[name]; have || ord < 0 || ord >= len(sigVars) {
+					continue
+				}
+				if t, ok := env[sigVars[ord].Name()]; ok && sigVars[ord].Name() != name {
+					isSigVar := false
+					if fsig.Recv() == sigVars[ord] {
+						isSigVar = true
+					}
+					for i := 0; i < fsig.Params().Len(); i++ {
+						if fsig.Params().At(i) == sigVars[ord] {
+							isSigVar = true
+						}
+					}
+					if isSigVar {
+						env[name] = t
+					}
+				}
+			}
+		}
 	} else {
 		// library contract: parameters named in the contract header; receiver is "recv"
 		if recv != nil {
